@@ -457,3 +457,248 @@ def generate_tensor(prop, label):
     d, a, h = int(m.group(1)), int(m.group(2)), m.group(3) == "have"
     return run_contract(prop, ("post", "Standardize._accumulate_tensor"), contract_accumulate_tensor(), [(label, setup_acc_tensor(d, a, h))],
                         name="std_accumulate_tensor", fname="Standardize._accumulate_tensor")
+
+
+# ------------------------------------------------------------------------------------------ _apply_tensor (ranks 2 and 3, every axis)
+
+TMEAN = z3.Function("mean_over_other_axes", I, I, R)
+
+
+class ATensor:
+    """tensor with a tracked element map: elem(index tuple) -> Real; `obj` names the array object (input / copy)"""
+
+    def __init__(self, dims, elem, dtype, obj):
+        self.dims, self.elem, self.dtype, self.obj = tuple(dims), elem, dtype, obj
+
+    def sym_len(self):
+        return self.dims[0]
+
+    def _keep(self, ev, axes, node):
+        d = len(self.dims)
+        if not isinstance(axes, tuple) or not all(isinstance(a, int) for a in axes):
+            raise Outside("reduction axis form")
+        keep = [j for j in range(d) if j not in [a % d for a in axes]]
+        ev.ex.oblige(ev.st, len(keep) == 1 and len(axes) == d - 1, f"reduces_all_axes_but_one.L{node.lineno - ev.ex.fx.lineno}", "spec", node.lineno)
+        if len(keep) != 1:
+            raise Outside("reduction does not keep exactly one axis")
+        ev.st.ghost.setdefault("kept_axes", []).append(keep[0])
+        return keep[0]
+
+    def sym_getattr(self, attr, ev, node):
+        if attr == "shape":
+            return tuple(self.dims)
+        if attr == "ndim":
+            return len(self.dims)
+        if attr == "dtype":
+            return Opaque(self.dtype, "dtype")
+        if attr == "astype":
+            def astype(ev2, args, kwargs, node2):
+                ev2.st.ghost["copies"] = ev2.st.ghost.get("copies", 0) + 1
+                t = ATensor(self.dims, self.elem, args[0].term, "copy")
+                t.is_input_values = getattr(self, "is_input_values", False)
+                return t
+            return symex.PyCallable(astype)
+        if attr in ("mean", "sum"):
+            def red(ev2, args, kwargs, node2):
+                keep = self._keep(ev2, kwargs.get("axis", args[0] if args else None), node2)
+                if getattr(self, "is_input_values", False) is False and not getattr(self, "squared", False):
+                    raise Outside("reduction of a derived tensor")
+                F = TMEAN if attr == "mean" else (TSQ if getattr(self, "squared", False) else TSUM)
+                f = z3.Int("tf!%d" % next(symex._fresh))
+                ev2.ex.assumption_ids.add("A-NP-RED")
+                return ev2.st.new_root(self.dims[keep], z3.Lambda([f], F(keep, f)), "float64", "fresh", "tred")
+            return symex.PyCallable(red)
+        raise Outside(f"tensor attribute .{attr}")
+
+    def sym_setitem(self, sl, v, ev, node):
+        # tensor[...] = scalar
+        if not (isinstance(sl, ast.Constant) and sl.value is Ellipsis) or not symex.is_num(v):
+            raise Outside("tensor store form")
+        _note_write(ev, self, node)
+        vv = to_real(v)
+        new = ATensor(self.dims, lambda idx: vv, self.dtype, self.obj)
+        for k2, v2 in list(ev.st.env.items()):
+            if v2 is self:
+                ev.st.env[k2] = new
+
+
+class BView:
+    """arr[(None, .., slice(None), .., None)]: a 1-D array broadcast along one axis of a tensor"""
+
+    def __init__(self, arr, axis, rank):
+        self.arr, self.axis, self.rank = arr, axis, rank
+
+
+def _note_write(ev, t, node):
+    ex, st = ev.ex, ev.st
+    if t.obj == "input":
+        st.writes.append(("param:tensor", "in-place arithmetic"))
+        ok = ex.spec(st, "in_place and F64()")
+        ex.oblige(st, ok, f"store_into_parameter_allowed.L{node.lineno - ex.fx.lineno}", "frame", node.lineno)
+
+
+def _len1(arr):
+    n = simp(Z(arr.n))
+    if isinstance(n, int):
+        return n == 1
+    return z3.is_int_value(n) and n.as_long() == 1
+
+
+def h_arr_binop_bcast1(ex, st, op, a, b, node, ev):
+    """numpy broadcasting of a length-1 array (np.ones(1)) against a vector: the single element acts as a scalar"""
+    if isinstance(a, Arr) and isinstance(b, Arr):
+        if _len1(b) and not _len1(a):
+            return h_arr_binop(ex, st, op, a, st.select(b, 0), node, ev)
+        if _len1(a) and not _len1(b):
+            f = {ast.Mult: lambda x, y: x * y, ast.Add: lambda x, y: x + y}.get(type(op))
+            if f is not None:
+                return h_arr_binop(ex, st, op, b, st.select(a, 0), node, ev)
+    return h_arr_binop(ex, st, op, a, b, node, ev)
+
+
+def h_binop_tensor(ex, st, op, a, b, node):
+    ev = symex.Evaluator(ex, st)
+    if isinstance(a, ATensor) and isinstance(b, BView):
+        d = len(a.dims)
+        one = _len1(b.arr)
+        ex.oblige(st, b.rank == d and (one or z3.And(Z(b.arr.n) == Z(a.dims[b.axis]))) if b.rank == d else False, f"broadcast_along_the_chosen_axis.L{node.lineno - ex.fx.lineno}", "wd", node.lineno)
+        st.ghost.setdefault("bcast_axes", []).append(b.axis)
+        e, arr, ax = a.elem, b.arr, b.axis
+        if one:
+            c0 = st.select(arr, 0)
+            f1 = {ast.Mult: lambda x, y: x * y, ast.Sub: lambda x, y: x - y}.get(type(op))
+            if f1 is None:
+                raise Outside("tensor operator")
+            return ATensor(a.dims, lambda idx: f1(e(idx), c0), a.dtype, a.obj)
+        f = {ast.Mult: lambda x, y: x * y, ast.Sub: lambda x, y: x - y}.get(type(op))
+        if f is None:
+            raise Outside("tensor operator")
+        content = st.heap[arr.root].content
+        if getattr(ev, "_aug_target", None) is not None or True:
+            pass
+        new = ATensor(a.dims, lambda idx: f(e(idx), z3.Select(content, Z(arr.off) + arr.step * Z(idx[ax]))), a.dtype, a.obj)
+        return new
+    if isinstance(a, ATensor) and isinstance(op, ast.Pow) and symex.concrete(b) and b == 2:
+        t = ATensor(a.dims, lambda idx: a.elem(idx) * a.elem(idx), a.dtype, "tmp")
+        t.squared = True
+        t.is_input_values = getattr(a, "is_input_values", False)
+        return t
+    return NotImplemented
+
+
+def h_tuple_index(ex, st, arr, idx, node, ev):
+    from pyvc.symex import PySlice
+    full = [k for k, e in enumerate(idx) if isinstance(e, PySlice) and e.is_full()]
+    if len(full) != 1 or not all(e is None or (isinstance(e, PySlice) and e.is_full()) for e in idx):
+        raise Outside("tuple index form")
+    return BView(arr, full[0], len(idx))
+
+
+class _ArrWithNoneIndex:
+    pass
+
+
+def setup_apply_tensor(d, axis, have):
+    def setup(ex, st):
+        dims = [api.sym("n%d" % j) for j in range(d)]
+        st.assume(z3.And(*[x >= 1 for x in dims]))
+        keep = axis % d
+        n = dims[keep]
+        X = z3.Function("X", *([I] * d + [R]))
+        f64 = api.sym("input_is_float64", "bool")
+        t = ATensor(dims, lambda idx: X(*[Z(i) for i in idx]), z3.If(f64, z3.StringVal("float64"), z3.StringVal("other")), "input")
+        t.is_input_values = True
+        st.env.update({"tensor": t, "axis": axis, "in_place": api.sym("in_place", "bool")})
+        stats = _mk_stats(st, simp(n + 1)) if have else None
+        api.mk_obj(st, "self", "Standardize", {"_stats": stats, "_norm_var": "bool"})
+        other = z3.IntVal(1)
+        for j, x in enumerate(dims):
+            if j != keep:
+                other = other * x
+        st.ghost.update(N=n, f64=f64, copies=0)
+        ex.ctx = dict(n=n, have=have, keep=keep, d=d, dims=dims, X=X, other=simp(other))
+        sq = api.SQRT
+        x = z3.Real("sx")
+        ex.axioms.append(z3.ForAll([x], z3.Implies(x > 0, z3.And(sq(x) > 0, sq(x) * sq(x) == x)), patterns=[sq(x)]))
+        k = z3.Int("ik")
+        if have:
+            R0, R1 = st.heap["row0"].content, st.heap["row1"].content
+            cnt = z3.Select(R0, n)
+            st.assume(cnt >= 1)
+            var = lambda j: z3.Select(R1, j) / cnt - (z3.Select(R0, j) / cnt) * (z3.Select(R0, j) / cnt)
+            st.assume(z3.ForAll([k], z3.Implies(z3.And(k >= 0, k < n), var(k) > 0)))
+            st.ghost.update(R0=R0, R1=R1)
+            ex.ctx.update(mean=lambda j: z3.Select(R0, j) / cnt, var=var)
+        else:
+            # per-utterance statistics: more than one vector in the tensor (the single-vector case raises / zeroes; stand-in)
+            st.assume(ex.ctx["other"] >= 2)
+            cntl = z3.ToReal(ex.ctx["other"])
+            var = lambda j: TSQ(keep, j) / cntl - TMEAN(keep, j) * TMEAN(keep, j)
+            st.assume(z3.ForAll([k], z3.Implies(z3.And(k >= 0, k < n), var(k) > 0)))
+            ex.ctx.update(mean=lambda j: TMEAN(keep, j), var=var)
+    return setup
+
+
+def _apply_spec(ev, res):
+    ex = ev.ex
+    d, keep, dims, X = ex.ctx["d"], ex.ctx["keep"], ex.ctx["dims"], ex.ctx["X"]
+    if not isinstance(res, ATensor) or len(res.dims) != d:
+        return z3.BoolVal(False)
+    idx = [z3.Int("ai%d" % j) for j in range(d)]
+    rng = z3.And(*[z3.And(i >= 0, i < Z(n)) for i, n in zip(idx, dims)])
+    f = idx[keep]
+    nv = Zb(ev.st.fields[("self", "_norm_var")])
+    scale = z3.If(nv, 1 / api.SQRT(ex.ctx["var"](f)), 1)
+    want = (X(*idx) - ex.ctx["mean"](f)) * scale
+    shape_ok = z3.And(*[Z(a) == Z(b) for a, b in zip(res.dims, dims)])
+    return z3.And(shape_ok, z3.ForAll(idx, z3.Implies(rng, res.elem(tuple(idx)) == want)))
+
+
+def h_ones(ex, st, args, kwargs, node, ev):
+    return st.new_root(args[0], z3.K(I, z3.RealVal(1)), "float64", "fresh", "ones")
+
+
+def h_sum_builtin(ex, st, args, kwargs, node, ev):
+    (g,) = args
+    if isinstance(g, tuple):
+        r = z3.IntVal(0)
+        for x in g:
+            r = r + Z(x)
+        return simp(r)
+    raise Outside("sum form")
+
+
+def contract_apply_tensor(have):
+    consts = dict(CONSTS)
+    consts.update({"SPEC": SpecFn(_apply_spec), "F64": SpecFn(lambda ev: ev.st.ghost["f64"]),
+                   "IS_F64": SpecFn(lambda ev, r: r.dtype == "float64" or (symex.is_z3(r.dtype) and simp(r.dtype == z3.StringVal("float64")))),
+                   "IS_INPUT_OBJECT": SpecFn(lambda ev, r: r.obj == "input"),
+                   "BCAST_OK": SpecFn(lambda ev: ev.st.ghost.get("bcast_axes", []) == [ev.ex.ctx["keep"]] * 2)})
+    c = Contract(
+        target="post:Standardize._apply_tensor",
+        uses=["A-REAL", "A-PYSEM", "A-NP-SLICE", "A-MATH", "A-NP-RED", "A-NP-BCAST"],
+        consts=consts,
+        handlers={"attr:have_stats": h_have_stats, "arr_binop": h_arr_binop_bcast1, "np.isclose": h_isclose, "np.any": h_any, "binop": h_binop_tensor,
+                  "np.prod": h_prod, "np.ones": h_ones, "sum": h_sum_builtin, "arr.tuple_index": h_tuple_index},
+        ensures=[
+            ("standardised_per_coefficient_of_the_chosen_axis", "SPEC(result) and BCAST_OK()"),
+            ("in_place_returns_the_input_object", "implies(in_place and F64(), IS_INPUT_OBJECT(result))"),
+            ("otherwise_a_copy", "implies(not (in_place and F64()), not IS_INPUT_OBJECT(result))"),
+        ],
+    )
+    c.lazy_products = False
+    c.canaries = [("not_a_copy", "implies(not (in_place and F64()), IS_INPUT_OBJECT(result))")]
+    return c
+
+
+def apply_tensor_labels():
+    return ["d%d_axis%d_%s" % (d, a, "stats" if h else "local") for d in (2, 3) for a in range(-d, d) for h in (True, False)]
+
+
+def generate_apply_tensor(prop, label):
+    import re
+    from contracts.registry import run_contract
+    m = re.match(r"d(\d)_axis(-?\d)_(stats|local)", label)
+    d, a, h = int(m.group(1)), int(m.group(2)), m.group(3) == "stats"
+    return run_contract(prop, ("post", "Standardize._apply_tensor"), contract_apply_tensor(h), [(label, setup_apply_tensor(d, a, h))],
+                        name="std_apply_tensor", fname="Standardize._apply_tensor")
